@@ -1,4 +1,5 @@
 """C06 - tank volumes integrate their net inflow and stay within their limits."""
+from hypothesis import strategies as st
 from ..outcome import fail, inconclusive, passed
 from ..refs import c05_tankgen as G
 
@@ -44,11 +45,23 @@ LEVEL_NOTE = ('trusted base: the reference in this module (V = A*level or own li
 FEAT = {'nctl': (0, 3), 'tanks': (1, 3), 'vol_curve': 0.45, 'pdd': 0.15}
 
 
-def strategy(tier='quick'):
+@st.composite
+def strategy(draw, tier='quick'):
     f = dict(FEAT)
     if tier == 'thorough':
         f['max_steps'] = 200
-    return G.scenario(f)
+    case = draw(G.scenario(f))
+    if draw(st.integers(0, 5)) == 0:
+        # a leaking tank: the leak is part of the reported net inflow, so the volume identity must hold as for any tank
+        # (the level-limit clauses are not applied to it: a leak keeps draining a tank below its minimum level)
+        tk = case['tanks'][draw(st.integers(0, len(case['tanks']) - 1))]
+        dur = max(case['opts']['duration'], 3600)
+        tk['leak'] = {'area': draw(st.sampled_from([1e-4, 5e-4, 2e-3])), 'cd': draw(st.sampled_from([0.75, 0.6])),
+                      'start': draw(st.sampled_from([None, 0, case['opts']['hyd'], dur // 3 + 7])),
+                      'end': draw(st.sampled_from([None, None, dur // 2 + 900]))}
+        if tk['leak']['start'] is not None and tk['leak']['end'] is not None and tk['leak']['end'] <= tk['leak']['start']:
+            tk['leak']['end'] = None
+    return case
 
 
 def summarize(case):
@@ -92,9 +105,14 @@ def tank_checks(case, run, tags):
         kind = 'curve' if tk.get('vol_curve') else 'cyl'
         if not abs(lv[0] - tk['init']) <= 1e-9:
             return ('init_level/%s' % kind, 'tank %s: level at t=0 is %.12g, init_level %.12g' % (name, lv[0], tk['init']))
+        leaky = bool(tk.get('leak'))
+        if leaky:
+            tags.append('tank_leak')
+            if float(max(run.node['leak_demand'][name])) > 0:
+                tags.append('tank_leak_active')
         for k in range(n):
             # ---- limits (band from the inflow of the row that led here)
-            if k > 0:
+            if k > 0 and not leaky:
                 for side, lim, sgn in (('min', tk['min'], -1.0), ('max', tk['max'], 1.0)):
                     over = sgn * (lv[k] - lim)
                     if over > 0:
@@ -114,11 +132,11 @@ def tank_checks(case, run, tags):
                 tags.append('reached_min')
             if lv[k] >= tk['max'] - 1e-3:
                 tags.append('reached_max')
-            if lv[k] <= tk['min'] + 1e-12 and not q[k] >= -G.QTOL:
+            if not leaky and lv[k] <= tk['min'] + 1e-12 and not q[k] >= -G.QTOL:
                 return (_limit_bucket('discharge_at_min', kind, _via(case, run, tk, k, -1.0)),
                         'tank %s t=%d: level %.9g <= min_level %.6g but net inflow %.6g < -Qtol' % (name, times[k], lv[k],
                                                                                                     tk['min'], q[k]))
-            if lv[k] >= tk['max'] - 1e-12 and not q[k] <= G.QTOL:
+            if not leaky and lv[k] >= tk['max'] - 1e-12 and not q[k] <= G.QTOL:
                 return (_limit_bucket('fill_at_max', kind, _via(case, run, tk, k, 1.0)),
                         'tank %s t=%d: level %.9g >= max_level %.6g but net inflow %.6g > Qtol' % (name, times[k], lv[k],
                                                                                                   tk['max'], q[k]))
